@@ -56,6 +56,8 @@ pub mod c04 {
     pub trait DynTr<T> { fn get(&self) -> &T; }
     impl<'a, T: fmt::Display> fmt::Display for dyn DynTr<T> + 'a { fn fmt(&self, f: &mut fmt::Formatter<'_>) -> fmt::Result { fmt::Display::fmt(self.get(), f) } }
     impl<'a, T: fmt::Debug> fmt::Debug for dyn DynTr<T> + 'a { fn fmt(&self, f: &mut fmt::Formatter<'_>) -> fmt::Result { fmt::Debug::fmt(self.get(), f) } }
+    impl<'a, T: fmt::Display> fmt::Display for dyn DynTr<T> + Send + 'a { fn fmt(&self, f: &mut fmt::Formatter<'_>) -> fmt::Result { fmt::Display::fmt(self.get(), f) } }
+    impl<'a, T: fmt::Debug> fmt::Debug for dyn DynTr<T> + Send + 'a { fn fmt(&self, f: &mut fmt::Formatter<'_>) -> fmt::Result { fmt::Debug::fmt(self.get(), f) } }
     pub trait DynAssoc { type Item; fn get(&self) -> &Self::Item; }
     impl<'a, T: fmt::Debug> fmt::Debug for dyn DynAssoc<Item = T> + 'a { fn fmt(&self, f: &mut fmt::Formatter<'_>) -> fmt::Result { fmt::Debug::fmt(self.get(), f) } }
 }
@@ -152,6 +154,9 @@ fn forms_for(tys: &[&'static str], p: &str, d: &mut Dice, cx: &mut Cx) -> String
         forms.push(format!("Box<{p}>"));
         // a trait object with the parameter among the trait's generic arguments
         forms.push(format!("Box<dyn DynTr<{p}>>"));
+        // ... next to a bound that does not mention it (every bound of the trait object has to be looked at)
+        forms.push(format!("Box<dyn DynTr<{p}> + Send>"));
+        forms.push(format!("Box<dyn Send + DynTr<{p}>>"));
     }
     if tys == ["?"] {
         forms.extend([
@@ -791,7 +796,7 @@ pub fn prop() -> DiceProp {
         build,
         fixed: no_fixed,
         classify,
-        rule: "generic structs and enums (1..3 type parameters, optional lifetime, optional inline bounds / where-clause / unused const parameter / defaults) deriving the 8 Display-like traits or Debug; each parameter is planned as formatted under one trait or under two different traits (through field types P, (P), W<P>, Box<P>, Box<dyn DynTr<P>>, &'a P, <W<P> as Assoc>::Out, <u8 as AssocArg<P>>::Out, and for Debug Vec/Option/array/tuple/boxed slice/Box<dyn DynAssoc<Item = P>>), formatted through its projection P::Out (item declares P: Assoc), formatted through a type needing nothing of the parameter (*const P, fn(P) -> u8), unformatted (unreferenced, skipped, PhantomData, fn pointer, behind a default shared enum literal) or used only in an argument expression with a user `bound(..)`/`bounds(..)` (struct, variant or enum level; one predicate per attribute or several in one); references by name, by bare-identifier argument, by alias, repeated and with flags, under every formatting trait incl. Pointer; implicit single-field delegation; field-level debug formats (field as argument or named in the literal); shared enum literals (default, bare default, `_variant`-wrapping, exactly `{_variant}`; default and wrapping ones may format a field by name, by bare argument or by alias). Oracle: the item compiles without further bounds, the impl exists for NoFmt/Only<Trait(s)>/OnlyShow instantiations, does not exist when a formatted parameter lacks (one of) its trait(s), and does not exist when a user-bounded parameter lacks the user's trait. Non-trivial = at least one formatted and one unformatted parameter, or a parameter nested in a composite type, or a shared enum literal; distinct by program text".into(),
+        rule: "generic structs and enums (1..3 type parameters, optional lifetime, optional inline bounds / where-clause / unused const parameter / defaults) deriving the 8 Display-like traits or Debug; each parameter is planned as formatted under one trait or under two different traits (through field types P, (P), W<P>, Box<P>, Box<dyn DynTr<P>>, Box<dyn DynTr<P> + Send>, &'a P, <W<P> as Assoc>::Out, <u8 as AssocArg<P>>::Out, and for Debug Vec/Option/array/tuple/boxed slice/Box<dyn DynAssoc<Item = P>>), formatted through its projection P::Out (item declares P: Assoc), formatted through a type needing nothing of the parameter (*const P, fn(P) -> u8), unformatted (unreferenced, skipped, PhantomData, fn pointer, behind a default shared enum literal) or used only in an argument expression with a user `bound(..)`/`bounds(..)` (struct, variant or enum level; one predicate per attribute or several in one); references by name, by bare-identifier argument, by alias, repeated and with flags, under every formatting trait incl. Pointer; implicit single-field delegation; field-level debug formats (field as argument or named in the literal); shared enum literals (default, bare default, `_variant`-wrapping, exactly `{_variant}`; default and wrapping ones may format a field by name, by bare argument or by alias). Oracle: the item compiles without further bounds, the impl exists for NoFmt/Only<Trait(s)>/OnlyShow instantiations, does not exist when a formatted parameter lacks (one of) its trait(s), and does not exist when a user-bounded parameter lacks the user's trait. Non-trivial = at least one formatted and one unformatted parameter, or a parameter nested in a composite type, or a shared enum literal; distinct by program text".into(),
         assumptions: vec!["trait-implementation probe via inherent-const-vs-blanket-trait resolution (stable Rust)".into()],
         floors: vec![
             ("has_unformatted_param".into(), 0.2),
